@@ -491,6 +491,10 @@ def check(ctx):
     from . import c07
     ctx.rule('R6', 'reindex_axis keeps the array\'s own axis object lineage (pipeline rule shared with C07)', 1)
     c07.rule_pipeline(ctx, rid='R6')
+    # ... and through the Dataset variants (Dataset.reduce_axis builds the transformed axis): rule shared with C14
+    from . import c14
+    from ..report import Renamed
+    c14.rule_reduce_axis(Renamed(ctx, {'*': 'R7'}))
     ctx.not_decided += ['semantics of dict.update (trusted)', 'Dataset-level propagation (decided under C14-R5)']
     ctx.trusted += ['dict.update copies all entries', 'hasattr(cls, name) is what "class member" means']
     return EXPLANATION
